@@ -3,7 +3,8 @@ From Coq Require Import Permutation Sorted.
 From HTA.lib Require Import Base.
 From HTA.model Require Import C06_Model.
 From HTA.proof Require Import C06_Proofs.
-From HTA.proof Require Import Scale C06_Scale.
+From HTA.gen Require Import IdleRules_gen.
+From HTA.proof Require Import Scale C06_Scale C06_RulesTie.
 Open Scope Z_scope.
 
 Theorem C06_gaps_are_consecutive : forall l d prev ks, map snd (walk l d prev ks) = consecutive_gaps prev ks.
@@ -69,3 +70,9 @@ Theorem C06_resolution_independent : forall k l d s, 0 < k ->
   model_C06 (scale_evs k l) (k * d) s = map (Z.mul k) (model_C06 l d s).
 Proof. exact C06_scale. Qed.
 Print Assumptions C06_resolution_independent.
+
+(* the classification rule is regenerated from _analyze_idle_time_for_stream on every run (strict statement-by-statement reading) and
+   is the model's; the rows are ordered by (start, end) as the code sorts them *)
+Theorem C06_rules_follow_source : forall d rt prev_end gap, classify d rt prev_end gap = classify_gen d rt prev_end gap.
+Proof. exact idle_rules_are_generated. Qed.
+Print Assumptions C06_rules_follow_source.
